@@ -1,0 +1,16 @@
+//go:build verif
+
+package mtproto
+
+// VerifYield, when set, is called at the named points of the request path (see verifYield call sites).
+// The verification harness uses it to hold a goroutine at that point for a while, so that schedules which
+// the Go scheduler rarely produces (an answer that arrives before its caller waits for it, a caller that
+// sends while another write is in progress) can be produced on demand. Never set in production builds:
+// this file is compiled only with the build tag "verif".
+var VerifYield func(point string, arg interface{})
+
+func verifYield(point string, arg interface{}) {
+	if f := VerifYield; f != nil {
+		f(point, arg)
+	}
+}
